@@ -48,6 +48,7 @@ type Job struct {
 	ReadFault *ReadFaultSpec `json:"read_fault,omitempty"` // the Nth successful read of a file with this suffix fails with EMFILE
 	XDev  string `json:"xdev,omitempty"` // this directory is on another device: renames across its boundary fail with EXDEV
 	PureBuf bool `json:"pure_buf,omitempty"` // replay: the buffer model the recording was made under (vs.PureBuf)
+	External map[string]string `json:"external,omitempty"` // files created by an outside actor at an arbitrary moment of the run
 	TwoWF bool `json:"two_wf,omitempty"` // build the workflow twice (two Workflow objects), run both
 	NoRaceReport bool            `json:"no_race_report,omitempty"` // race build used only to make memory accesses scheduling points (races themselves are C12's)
 	ForceAll   int               `json:"force_all"`
@@ -276,6 +277,19 @@ func (r *runner) body() {
 		return
 	}
 	b := r.spec.build(r.env)
+	if len(r.job.External) > 0 {
+		// environment: somebody else (another program, the user) creates these files at an arbitrary
+		// moment of the run - one controlled thread per file, scheduled like any other
+		paths := []string{}
+		for p := range r.job.External {
+			paths = append(paths, p)
+		}
+		sort.Strings(paths)
+		for _, p := range paths {
+			p, c := p, r.job.External[p]
+			vs.Go(func() { vs.FSWriteFile(p, []byte(c), 0644) })
+		}
+	}
 	if r.job.TwoWF {
 		// a second workflow object is constructed while goroutines of the first one exist
 		// (parameter feeders start at construction), then both are run one after the other
